@@ -21,7 +21,9 @@ pub fn window(open: bool) {
 }
 
 /// Offers spurious condition-variable wake-ups (a wait returning without notification or
-/// timeout, which std permits) as 1-cost deviations while the window is open.
+/// timeout, which std permits) and late wake-ups (a notified timed wait that gets the
+/// processor only after its deadline, yet reports "not timed out") as 1-cost deviations
+/// while the window is open.
 pub fn spurious(on: bool) {
     with_state(|st, _| st.spurious = on);
 }
